@@ -64,6 +64,17 @@ fn main() {
                 (_, Err(e)) => json!({"ok": false, "stage": "harness", "error": format!("loading WIT: {e:#}")}),
             }
         }
+        "validate" => match std::fs::read_to_string(args.str("wit", "")) {
+            Ok(text) => match witgen::parse(&text).and_then(|(r, w)| witgen::check_encodable(&r, w).map(|_| (r, w))) {
+                Ok((r, w)) => {
+                    let mut v = world_info(&r, w);
+                    v["ok"] = json!(true);
+                    v
+                }
+                Err(e) => json!({"ok": false, "stage": "invalid", "error": format!("{e:#}")}),
+            },
+            Err(e) => json!({"ok": false, "stage": "harness", "error": format!("{e}")}),
+        },
         "world-info" => match load_world_like_tests(&args.str("wit", "")) {
             Ok((r, w)) => world_info(&r, w),
             Err(e) => json!({"ok": false, "stage": "harness", "error": format!("loading WIT: {e:#}")}),
